@@ -2,7 +2,15 @@
 from vlib import modules
 
 MODS = ["AvoVerif.Props.C11", "AvoVerif.Props.C11Text", "AvoVerif.Props.C11Tables", "AvoVerif.Props.C11Examples",
-        "AvoVerif.Props.C11Accept", "AvoVerif.Props.C11Bind"]
+        "AvoVerif.Props.C11Accept", "AvoVerif.Props.C11Bind", "AvoVerif.Props.C11Hist"]
+
+# kinds of in-place change of the history stream (harness/c11hist.go); every one must be followed by a re-print of a
+# file that had been printed before the change
+HIST_KINDS = ["opcode", "suffix_same_len", "suffix_same_len_inplace", "suffix_other_len", "suffix_truncated",
+              "operands_inplace", "operands_same_len", "operands_other_len", "flags", "label_rename", "comment_lines",
+              "node_insert", "node_remove", "node_replace", "nodes_all", "fn_name", "fn_attrs", "fn_signature",
+              "fn_localsize", "fn_isa", "fn_doc_pragmas", "includes", "constraints", "sec_insert", "sec_remove",
+              "sec_replace", "data"]
 
 
 def floors(ctx, sub, n, spec):
@@ -29,7 +37,7 @@ def floors(ctx, sub, n, spec):
 
 def run(ctx):
     # isolation: only the shared core plus C11's own Go files are compiled into .work/bin/avoh-C11
-    if not ctx.build_harness(["c11.go", "c11enc.go"]):
+    if not ctx.build_harness(["c11.go", "c11enc.go", "c11hist.go"]):
         return
     ctx.regen([modules.TEXTFLAGS, modules.TEXTFLAGH])
     ctx.forbidden_scan()
@@ -48,6 +56,7 @@ def run(ctx):
     if not ctx.replay:
         ctx.run_corpus("c11")
         ctx.run_corpus("c11asm", max_report=1000)
+        ctx.run_corpus("c11hist")
     ctx.differential("c11", n1,
                      nontrivial=lambda req, resp: " i " in req and (" l " in req or " c " in req))
     if not ctx.replay:
@@ -61,6 +70,38 @@ def run(ctx):
             "blocks_over_64": (lambda n: n // 40, None),
             "files_over_4_sections": (lambda n: n // 40, None),
         })
+    # (c) histories: the same objects inspected, printed, changed in place and printed again (Model/PrintHist)
+    n3 = 500 if quick else 8000
+    ctx.differential("c11hist", n3, nontrivial=lambda req, resp: " E " in req and " P " in req)
+    if not ctx.replay:
+        spec = {
+            "hist_encode_error": (None, 0),
+            "hist_print_error": (None, 0),
+            "hist_print_panic": (None, 0),
+            "hist_fixed_not_applicable": (None, 0),
+            "hist_requests": (lambda n: n, None),
+            "hist_prints": (lambda n: 3 * n, None),
+            "hist_prints_wellformed": (lambda n: 2 * n, None),
+            "hist_prints_with_suffix_instrs": (lambda n: 2 * n, None),
+            "hist_inspects": (lambda n: n, None),
+            "hist_edits": (lambda n: 3 * n, None),
+            "hist_files_hand": (lambda n: n // 2, None),
+            "hist_files_ctx": (lambda n: n // 8, None),
+            "hist_malformed": (lambda n: n // 20, None),
+            "hist_reprint_changed": (lambda n: n, None),
+            "hist_reprint_changed_interleaved": (lambda n: n // 200, None),
+            "hist_reprint_unchanged": (lambda n: n // 2, None),
+            "hist_inspected_then_changed": (lambda n: n // 10, None),
+            "hist_unseen_then_changed": (lambda n: n // 20, None),
+            "hist_realloc_printed": (lambda n: n // 25, None),
+            "hist_drops": (lambda n: n // 25, None),
+            "hist_via_instructions": (lambda n: n // 8, None),
+            # the class of the missed change C11-7: the only look at the instruction was an accessor call
+            "inspected_then_suffix_same_len": (lambda n: n // 100, None),
+        }
+        for k in HIST_KINDS:
+            spec["reprint_" + k] = ((lambda n: n // 200) if k == "suffix_truncated" else (lambda n: n // 40), None)
+        floors(ctx, "c11hist", n3, spec)
     # measured: compiled programs through `go tool asm -S` and binutils objdump
     n2 = 300 if quick else 10000
     ctx.differential("c11asm", n2, extra=["-work", ctx.dir], max_report=1000,
@@ -94,7 +135,11 @@ def run(ctx):
         "proved for all files (Lean): the model of goasm.go prints every instruction once and in order, keeps every label in "
         "front of the same instruction, one TEXT line per function with attribute clause/frame/args, and the printed bytes read "
         "back as the file (print_faithful, under the token hypotheses WFFile); the acceptors are sound w.r.t. their declarative "
-        "statements (acceptPrint_sound, acceptAsmFn_sound, acceptAsm_sound); labelsFrom (the binding used by all statements) is the LabelTarget of Model/Func (labelsFrom_is_labelTarget). MEASURED on generated samples only: that "
+        "statements (acceptPrint_sound, acceptAsmFn_sound, acceptAsm_sound, acceptHist_sound); over call histories (Model/PrintHist: "
+        "heap of files; new / drop / edit in place / inspect / print) the text of EVERY print is the rendering of the content the file "
+        "has at that moment and reads back as that content (hist_print_current, hist_print_faithful, hist_C11_partial), inspections and "
+        "prints change nothing (inspections_irrelevant, heapAfter_frame), an edit shows in the next print (reprint_after_edit, "
+        "edit_suffixes_printed), a new file carries nothing over (fresh_file_printed); labelsFrom (the binding used by all statements) is the LabelTarget of Model/Func (labelsFrom_is_labelTarget). MEASURED on generated samples only: that "
         "`go tool asm` accepts the text, object-symbol flags/sizes and that encoded branches land on the bound instruction")
     ctx.coverage["rule"] = (
         "c11: generated ir.Files (functions x data sections x constraints x includes; node lists with any interleaving of "
@@ -103,6 +148,17 @@ def run(ctx):
         "`print` = exact bytes of the model vs printer.NewGoAsm (the byte format is pinned by avo's own golden tests; the "
         "property itself is judged by the acceptors); `wf` = the hypotheses of print_faithful evaluated in Lean vs the harness; "
         "`accept-print` = the implementation's text split/lexed/parsed back to sections, instructions and label bindings. "
+        "c11hist: call histories in ONE process over up to 3 live files (hand-built files and build.Context programs compiled by "
+        "pass.Compile, with AVX-512 suffix instructions): the same *ir.File/*ir.Function/*ir.Instruction objects are inspected through "
+        "public accessors (OpcodeWithSuffixes, Instructions, Labels, Stub, FrameBytes, ArgumentBytes, Signature.String, Attributes.Asm, "
+        "operand Asm, TargetLabel, the stub printer, pass.LabelTarget), printed, CHANGED IN PLACE (27 kinds: opcode; suffix list of the same "
+        "length replaced / assigned element-wise, of another length, truncated; operands; flags; label renamed with its references; comment "
+        "lines; node inserted / removed / replaced; whole node list; name; attributes; signature; local size; ISA; doc/pragmas; includes; "
+        "constraints; section inserted / removed / replaced; data section fields) and printed again by new printer objects, files "
+        "alternating, dropped and allocated again; what the model is told about a change never comes from the changed objects (derived "
+        "values from FRESH objects). `hist` = exact bytes of every print vs the model's rendering of the state reached by the same "
+        "operations; `accept-hist` = every print's real text read back against the content of that moment. Floors per kind of change x "
+        "(printed before | only inspected before | never seen before). "
         "c11asm: programs built through build.Context (function/data/label names from pools incl. register-like and "
         "macro-like symbol names, every J* opcode of the compiled table that takes a label — rel8-only ones in a short shape —, "
         "runs of 65..200 instructions, 15 attribute sets + random 16-bit attribute words, data sections referenced from code), "
@@ -134,6 +190,10 @@ def run(ctx):
         "invalid UTF-8 in names/operands and the sticky prnt.Generator error path are not generated (the model's Txt cannot represent "
         "invalid UTF-8); printf verbs in the constraint block cannot reach goasm.header's Printf because buildtags.Format rejects them",
     ]
+    ctx.assumptions += [
+        "histories: one printer object prints one file (reusing a printer object appends to its buffer: not a use the property speaks about); "
+        "changes that go through passes (re-running pass.Compile parts after an edit) are not generated; a history is single-threaded",
+    ]
     ctx.trusted += [
         "go tool asm, binutils objdump (x86-64 decoder) as ground truth for the measured part",
         "operand texts (Op.Asm()), the stub/signature text and buildtags.Format output are opaque tokens taken from the real code: a wrong "
@@ -141,6 +201,9 @@ def run(ctx):
         "property; C11 checks only that the printer passes Op.Asm() through unchanged and in order",
         "Gen.attrname is obtained by calling attr.Attribute(1<<i).Asm() on the compiled package (no source parsing)",
         "Oracle.textflagH is parsed from $(go env GOROOT)/pkg/include/textflag.h on every run",
+        "c11hist: the harness' own mirror of each in-place change as a model edit (harness/c11hist.go mut*: glue; a wrong mirror shows as a "
+        "mismatch on the unchanged tree, never hides one), and the derived values of a change taken from fresh avo objects "
+        "(ir.NewFunction + SetSignature for Stub/FrameBytes/ArgumentBytes, a fresh ir.Instruction for IsUnconditionalBranch)",
         "the hand-tagged hazard classes of label names (harness/c11.go p11HazardLabels) and the classification of assembler messages "
         "(p11ClassifyReject): glue; a message that is not explained is reported as a violation, never suppressed",
     ]
